@@ -1713,8 +1713,15 @@ func segment.Find
     flags noframe only_names
     assert[names_roundtrip] sprintf("%020d.log", decOf(offsetStr)) == offsetStr + ".log" ==> sprintf("%020d.log", arg1) == offsetStr + ".log" at call New 1
     assert[names_dir]       arg0 == dir && arg2 == autoSync at call New 1
+    // C01/C02: every directory entry named *.log becomes a segment (none is skipped: an empty head's file NAME is the
+    // only record of NextOffset) unless its name does not parse, which fails the whole Find
     loop 1
       invariant[names] true
+      invariant[names_all] len(segments) == gDone["cutsuffix"] - old(gDone)["cutsuffix"]
+      invariant[names_frame] forall k string :: k != "cutsuffix" ==> gDone[k] == old(gDone)[k]
+    assigns gDone
+    ensures[names_count] ret1 == nil ==> len(ret0) == gDone["cutsuffix"] - old(gDone)["cutsuffix"]
+    ensures[names_frame] forall k string :: k != "cutsuffix" ==> gDone[k] == old(gDone)[k]
     ensures ret1 == nil ==> (forall i :: 0 <= i && i < len(ret0) ==> ret0[i].Offset >= 0)
                             && (forall i, j :: 0 <= i && i < j && j < len(ret0) ==> ret0[i].Offset < ret0[j].Offset)
                             && len(ret0) < 1152921504606846976
